@@ -440,7 +440,7 @@ IO_RULE = {
            "(explicit codec and default formatter) and read back; or one well-formed file of <= 2-3 lines from a ~90-line menu (comments, blanks/tabs before/between/after, one- and multi-word labels); or one file for the "
            "vertex-name loader (every sequence of <= 3-4 edges over names a, b, ab, 7, #x with leading blanks). Non-trivial = at least two edges / lines.",
     "C14": "case = one graph (same sequence enumeration) x label type (none, 1/2/4/8-byte integers, float, double; label values with all-distinct bytes): file length, bytes vs. an independent shift-based little-endian "
-           "encoder in edges() order, load (size, == after resize), load twice, every permutation of <= 4 records; unopenable paths for every writer and loader; swapBytes = byte reversal. Non-trivial = at least two records.",
+           "encoder in edges() order, load (size, == after resize), load twice, every permutation of <= 4 records; unopenable paths for every writer and loader. Non-trivial = at least two records.",
     "C15": "case = (written binary file, cut offset) for every offset 0..len of every file of the sequence enumeration; every token string up to length 3-4 over a 17-token alphabet (digits, -1, 12-digit number, +1, 1.5, x, #, "
            "blank, tab, LF, CR, NUL, 0xFF, the writer's header line) plus header+3-line files offered to five text loader instantiations; every byte string up to 9-18 bytes over a per-position alphabet offered as binary. "
            "ASan+UBSan build with -ftrivial-auto-var-init=pattern. Non-trivial = cut strictly inside a record / multi-token text.",
